@@ -18,12 +18,16 @@ TMergeTV ==
        = {Ev.all_before[i] : i \in 1..Len(Ev.all_before)} \ {Ev.sources[i].sid : i \in 1..Len(Ev.sources)}
   /\ Unch
 
+\* C18 inside a merge schedule: while the user thread is inside wait_merging_threads (the writer
+\* still exists, its merge still runs) no other writer can be created
+TIntruder == Ev.ev = "intruder_create" /\ (wopen => ~Ev.ok) /\ Unch
+
 TMergeStarted == Ev.ev = "merge_started" /\ Unch
 TSchedule == Ev.ev = "schedule" /\ Unch
 
 MStep ==
   /\ l <= Len(Rec) /\ l' = l + 1 /\ UNCHANGED calling
-  /\ (TMergeTV \/ TMergeStarted \/ TSchedule)
+  /\ (TMergeTV \/ TMergeStarted \/ TSchedule \/ TIntruder)
 
 MNext == TNext \/ MStep
 MSpec == TInit /\ [][MNext]_vars
